@@ -635,6 +635,11 @@ def header_expression(tree, name):
             continue
         if not any(name in target_ids(h) for h in header):
             continue
+        if isinstance(n, (ast.FunctionDef, ast.AsyncFunctionDef)):
+            # a global / nonlocal declaration of the name in the def: the header is evaluated as if it applied there
+            for x in ast.walk(n):
+                if isinstance(x, (ast.Global, ast.Nonlocal)) and name in x.names:
+                    return True
         for s in n.body:
             for x in ast.walk(s):
                 if isinstance(x, ast.Name) and isinstance(x.ctx, (ast.Store, ast.Del)):
@@ -1179,8 +1184,8 @@ def run(ctx):
             ctx.count("collector_cases")
         ctx.traces += len(chunk)
     # ---- projects
-    n_main = ctx.scale(10, 90)
-    n_plus = ctx.scale(10, 80)
+    n_main = ctx.scale(9, 70)
+    n_plus = ctx.scale(9, 60)
     plan = [("fixed", dict(pr), ()) for pr in FIXED]
     for _ in range(n_main):
         plan.append(("main", None, ()))
